@@ -6,7 +6,8 @@
    functions (ParDefs.footprint) are validated against the implementation by the K-footprint correspondence. *)
 From Coq Require Import List ZArith Bool Lia String.
 From GMGP Require Import ParDefs ParProofs ParProofs_smoother_take ParProofs_ext_smoother_take
-  ParProofs_smoother_give ParProofs_ext_smoother_give ParProofs_assembly ParOwnerDefs ParOwnerProofs.
+  ParProofs_smoother_give ParProofs_ext_smoother_give ParProofs_assembly ParProofs_smoother_build_give ParProofs_smoother_build_take
+  ParOwnerDefs ParOwnerProofs.
 From GMGPGen Require Import ParRegionsGen ParOwnerGen.
 Import ListNotations.
 Local Open Scope Z_scope.
@@ -22,6 +23,17 @@ Theorem C11_direct_give_assembly_race_free : forall d, valid d -> race_free gen_
 Proof. exact direct_give_assembly_race_free. Qed.
 Theorem C11_direct_take_assembly_race_free : forall d, valid d -> race_free gen_direct_take_assembly d.
 Proof. exact direct_take_assembly_race_free. Qed.
+
+(* line-matrix assembly of the four smoothers (cells = the matrix row of a node; the give variants update the rows of the
+   neighbouring lines as well, which is why their loops are 3-coloured) *)
+Theorem C11_smoother_give_build_race_free : forall d, valid d -> race_free gen_smoother_give_build d.
+Proof. exact smoother_give_build_race_free. Qed.
+Theorem C11_smoother_take_build_race_free : forall d, valid d -> race_free gen_smoother_take_build d.
+Proof. exact smoother_take_build_race_free. Qed.
+Theorem C11_ext_smoother_give_build_race_free : forall d, valid d -> race_free gen_ext_smoother_give_build d.
+Proof. exact ext_smoother_give_build_race_free. Qed.
+Theorem C11_ext_smoother_take_build_race_free : forall d, valid d -> race_free gen_ext_smoother_take_build d.
+Proof. exact ext_smoother_take_build_race_free. Qed.
 
 (* the smoothers colour the radial lines alternately: ntheta even (every grid PolarGrid accepts) *)
 Theorem C11_smoother_give_race_free : forall d, valid d -> d_nt d mod 2 = 0 -> race_free gen_smoother_give d.
